@@ -903,6 +903,13 @@ class Engine:
             return r
         name = self.mir.resolve(callee)
         if name is None:
+            # `<T as Trait>::m` inside an un-monomorphised generic body: dispatch on the run-time type of the receiver
+            mg = re.match(r"^<([A-Z]\w*) as ([\w:]+)(?:<.*>)?>::(\w+)", callee.strip())
+            if mg and args:
+                v0 = self.deref_all(st, args[0])
+                if isinstance(v0, (Struct, Enum)):
+                    name = self.mir.resolve(f"<{v0.ty} as {mg.group(2)}>::{mg.group(3)}")
+        if name is None:
             raise Unsupported("call to unmodelled function: " + mirmod.strip_generics(callee)[:160])
         if name in self.stubs:
             r = self.stubs[name](self, st, args)
